@@ -63,7 +63,9 @@ BOUNDARIES = [256, 256, 512, 65536]
 
 
 def case_strategy(thorough=False):
-    bulk = st.none() | st.tuples(st.integers(0, 3 if thorough else 2), st.integers(-6, 12)).map(list)
+    # (the 65536 boundary costs tens of seconds per case: thorough tier only, and rarely)
+    which = st.sampled_from([0] * 6 + [1] * 6 + [2] * 6 + [3]) if thorough else st.integers(0, 2)
+    bulk = st.none() | st.tuples(which, st.integers(-6, 12)).map(list)
     return st.builds(
         lambda a, p, r, init, ops, lat, bulk, chunk: {
             'activation': a, 'prefetch': p, 'reorg_limit': r, 'init': init, 'ops': ops, 'lat': lat,
